@@ -10,6 +10,11 @@ From Coq Require Import List Ascii Bool Arith ZArith.
 From PV Require Import Replace.
 Import ListNotations.
 
+(* repair switch (stage 1: false): to_yaml of values that are numpy scalars (update_var with numpy values,
+   add_edges_from_matrix) raises RepresenterError; fixes/fix_C15_numpy_yaml.diff converts them to Python numbers *)
+Definition fixed_numpy : bool := false.
+Definition dump_representable (fx numpy_values : bool) : bool := fx || negb numpy_values.
+
 (* ---------- insertion-ordered dictionaries (Python dict) ---------- *)
 Fixpoint assoc {V} (k : str) (m : list (str * V)) : option V :=
   match m with [] => None | (k', v) :: m' => if str_eqb k k' then Some v else assoc k m' end.
@@ -296,3 +301,59 @@ Definition den_eqb (a b : den) : bool :=
 Definition store_eqb (a b : store) : bool := list_eqb (pair_eqb str_eqb entry_eqs) a b.
 Definition roundtrip_ok (c : circ) : bool :=
   match roundtrip c with Some c' => den_eqb (denote c') (denote c) | None => false end.
+
+(* ====================================================================================================
+   Template sets spread over several files: how from_yaml resolves references (pyrates/frontend/template/_io.py
+   _complete_template_path, pyrates/frontend/file.py parse_path, the constructors of Circuit/Node/EdgeTemplate).
+   A reference is a bare template name — it is looked up IN THE FILE OF THE TEMPLATE THAT CONTAINS THE REFERENCE,
+   whatever the neighbouring references point to — or names a file and a template (written `../file/name` relative to
+   the referencing file, or `package.file.name`; the harness maps both spellings to a file identifier).
+   ==================================================================================================== *)
+Inductive ref := RBare (name : str) | RFile (file name : str).
+Definition resolve (cur : str) (r : ref) : str * str := match r with RBare n => (cur, n) | RFile f n => (f, n) end.
+Definition medge := (str * str * option ref * list (str * Z))%type.
+Inductive mentry :=
+| MOp (eqs : list str) (vars : list (str * vspec))
+| MNode (is_edge : bool) (ops : list (ref * upd))
+| MCirc (subs nodes : list (str * ref)) (edges : list medge).
+Definition fileset := list (str * list (str * mentry)).
+Definition mlookup (fs : fileset) (fn : str * str) : option mentry := obind (assoc (fst fn) fs) (assoc (snd fn)).
+
+Definition mload_op (fs : fileset) (cur : str) (r : ref) : option opT :=
+  match mlookup fs (resolve cur r) with Some (MOp eqs vars) => Some (mkOp (snd (resolve cur r)) eqs vars) | _ => None end.
+(* the operators of a node are resolved relative to the NODE's file *)
+Definition mload_node (is_edge : bool) (fs : fileset) (cur : str) (r : ref) : option nodeT :=
+  let fn := resolve cur r in
+  match mlookup fs fn with
+  | Some (MNode e ops) =>
+      if Bool.eqb e is_edge
+      then obind (mapM (fun ru => obind (mload_op fs (fst fn) (fst ru)) (fun o => Some (o, snd ru))) ops) (fun os => Some (mkNode (snd fn) os))
+      else None
+  | _ => None
+  end.
+Definition mload_keyed {A} (f : ref -> option A) (l : list (str * ref)) : option (list (str * A)) :=
+  mapM (fun kv => obind (f (snd kv)) (fun x => Some (fst kv, x))) l.
+Definition mload_edge (fs : fileset) (cur : str) (e : medge) : option edgeT :=
+  let '(s, t, k, at_) := e in
+  match k with
+  | None => Some (mkEdge s t None at_)
+  | Some r => obind (mload_node true fs cur r) (fun nd => Some (mkEdge s t (Some nd) at_))
+  end.
+Definition mload_flat (fs : fileset) (cur : str) (r : ref) : option flatC :=
+  let fn := resolve cur r in
+  match mlookup fs fn with
+  | Some (MCirc [] ns es) =>
+      obind (mload_keyed (mload_node false fs (fst fn)) ns) (fun nodes =>
+      obind (mapM (mload_edge fs (fst fn)) es) (fun edges => Some (mkFlat (snd fn) nodes edges)))
+  | _ => None
+  end.
+Definition mload_circ (fs : fileset) (file name : str) : option circ :=
+  match mlookup fs (file, name) with
+  | Some (MCirc ss ns es) =>
+      obind (mload_keyed (mload_flat fs file) ss) (fun subs =>
+      obind (mload_keyed (mload_node false fs file) ns) (fun nodes =>
+      obind (mapM (mload_edge fs file) es) (fun edges => Some (mkCirc name subs nodes edges))))
+  | _ => None
+  end.
+(* Spec for the YAML frontend: the model a template set stands for *)
+Definition mdenote (fs : fileset) (file name : str) : option den := option_map denote (mload_circ fs file name).
